@@ -277,14 +277,14 @@ NAME_RULES = {'ReservedVariableName', 'RedefinedVariable', 'BadAssignment'}
 EXPR_RULES = {'UndefinedVariableReference', 'BadAttributeLookup', 'BadLoop'}
 
 
-def features(tables, names=(), exprs=(), more=(), about=None):
+def features(tables, names=(), exprs=(), more=(), about=None, crash=False):
     """the features of a statement that name its input class: special names it binds, selector kinds in its expressions.
     about: the rule the specification applies to the statement; a rule about names says nothing about the expressions
     and vice versa, so only the features the rule looks at are part of the class."""
     f = set()
     if about not in EXPR_RULES:
         f = {'name=' + x for x in {name_class(n, tables) for n in names} - {'v'}}
-    if about not in NAME_RULES:
+    if about not in NAME_RULES or crash:        # whatever was raised that is no verdict was raised while evaluating
         for e in exprs:
             for s in e:
                 if s['sel'] != 'none':
@@ -292,26 +292,26 @@ def features(tables, names=(), exprs=(), more=(), about=None):
     return '[' + ','.join(sorted(f | set(more))) + ']'
 
 
-def tok_class(t, tables, about=None):
+def tok_class(t, tables, about=None, crash=False):
     k = t['k']
     arity = ['arity-mismatch'] if t['nfmt'] != len(t['args']) else []
     if k == 'define':
-        return 'define' + features(tables, t['names'], [t['src']], about=about)
+        return 'define' + features(tables, t['names'], [t['src']], about=about, crash=crash)
     if k in ('print', 'comment'):
-        return k + features(tables, (), t['args'], arity, about=about)
+        return k + features(tables, (), t['args'], arity, about=about, crash=crash)
     if k == 'write_file':
         keys = [] if set(t['kw']) == {'filename', 'contents'} else ['keys=' + ('+'.join(sorted(t['kw'])) or 'none')]
-        return 'write_file' + features(tables, (), t['args'] + [t['src']], arity + keys, about=about)
+        return 'write_file' + features(tables, (), t['args'] + [t['src']], arity + keys, about=about, crash=crash)
     if k == 'loop':
         kw = set(t['kw'])
         if kw == COLL:
-            return 'loop-collection' + features(tables, t['names'][:1], [t['src']], about=about)
+            return 'loop-collection' + features(tables, t['names'][:1], [t['src']], about=about, crash=crash)
         if {'map', 'body'} <= kw and kw <= {'map', 'body', 'key', 'value'}:
             form = {(True, True): 'key-and-value', (True, False): 'key', (False, True): 'value',
                     (False, False): 'neither-key-nor-value'}['key' in kw, 'value' in kw]
             names = [t['names'][0]] * ('key' in kw) + [t['names'][1]] * ('value' in kw)
             same = ['key=value'] if len(names) == 2 and names[0] == names[1] and about not in EXPR_RULES else []
-            return f'loop-map:{form}' + features(tables, names, [t['src']], same, about=about)
+            return f'loop-map:{form}' + features(tables, names, [t['src']], same, about=about, crash=crash)
         return 'loop-malformed:keywords=' + '+'.join(sorted(kw))
     return 'statement:' + k
 
@@ -495,7 +495,9 @@ def compare(c, res, tables, fnd, pending):
         pd = sorted(p['defined'], key=lambda d: d['n'])
         if p['verdict'] == e['verdict'] and (p['verdict'] not in ('running', 'accepted') or pd == e['defined']):
             continue
+        about = p['verdict']; crash = False
         if p['verdict'] != e['verdict'] and e['verdict'] not in SAMPLE_ERRORS | {'running', 'accepted'}:
+            crash = True
             tail = f"raised={e['verdict']}"           # no verdict of the validator at all
             what = f"predicted {p['verdict']}, but {e['verdict']} was raised (no samplegen error)"
         elif p['verdict'] != e['verdict']:
@@ -508,7 +510,7 @@ def compare(c, res, tables, fnd, pending):
         if i == 0:
             pending.append((c['req'], tail, f'step 0 of {case_text(c)}: {what}', replay))
         else:
-            cls = 'finish' if p['k'] == 'finish' else tok_class(c['prog'][i - 1], tables, about=p['verdict'])
+            cls = 'finish' if p['k'] == 'finish' else tok_class(c['prog'][i - 1], tables, about=about, crash=crash)
             fnd.report(f'{cls}:{tail}', f'step {i} of {case_text(c)}: {what}', replay)
         return False
     if len(pred) != len(ev):
@@ -531,7 +533,7 @@ def attribute_requests(pending, known, tables, fnd):
                 return minimal(sub)
         return req
 
-    for req, tail, summary, replay in pending:
+    for req, tail, summary, replay in sorted(pending, key=lambda x: len(x[0])):
         m, mtail = known[req_key(minimal(req))]
         fnd.report(f'{req_class(m, tables)}:{mtail}', summary, replay)
 
@@ -573,6 +575,40 @@ def validate(chk, label, traces, owners, tables, fnd):
     chk.tlc_runs.append(dict(label=f'SampleCfgTrace batch {label}', runs=nruns, accepted=nacc, rejected=nrej, wall_s=round(time.time() - t0, 1)))
 
 
+def self_test_traces(chk, traces):
+    """non-vacuity of the trace specification: a recorded behaviour with one field changed must be rejected."""
+    import copy
+    picked = {}
+    for t in traces:
+        ev = t['events']
+        loop = [i for i, e in enumerate(ev) if e['ev'] == 'stmt' and e['tok']['k'] == 'loop' and e['verdict'] == 'running']
+        if 'shape' not in picked and loop and ev[-1]['verdict'] == 'accepted':
+            bad = copy.deepcopy(t)
+            d = [x for x in bad['events'][loop[0]]['defined'] if x['n'] == bad['events'][loop[0]]['tok']['names'][0]]
+            if d:
+                d[0]['s'] = 'rep:' + d[0]['s']           # the iteration variable reported as a collection
+                picked['shape'] = bad
+        if 'verdict' not in picked and ev[-1]['verdict'] == 'UndefinedVariableReference':
+            bad = copy.deepcopy(t)
+            bad['events'][-1]['verdict'] = 'BadAttributeLookup'
+            picked['verdict'] = bad
+        if 'scope' not in picked and any(e['tok']['k'] == 'end' and e['ev'] == 'stmt' for e in ev) and ev[-1]['verdict'] == 'accepted':
+            bad = copy.deepcopy(t)
+            i = [j for j, e in enumerate(ev) if e['ev'] == 'stmt' and e['tok']['k'] == 'end'][0]
+            bad['events'][i]['defined'] = bad['events'][i - 1]['defined']      # the loop variable still in scope after the loop
+            if bad['events'][i]['defined'] != ev[i]['defined']:
+                picked['scope'] = bad
+        if len(picked) == 3:
+            break
+    if len(picked) < 3:
+        raise core.MachineryError(f'no trace to corrupt for {set(("shape", "verdict", "scope")) - set(picked)}')
+    for what, bad in sorted(picked.items()):
+        n, r = tlc.validate_traces('SampleCfgTrace', 'SampleCfgTrace.cfg', [bad])
+        if n != 0:
+            raise core.MachineryError(f'SampleCfgTrace accepted a corrupted trace ({what}): {bad}')
+    chk.extra['corrupted_traces_rejected'] = sorted(picked)
+
+
 def main(chk, args):
     quick = chk.tier == 'quick'
     rnd = random.Random(chk.seed)
@@ -581,8 +617,13 @@ def main(chk, args):
     #    scope; every mutant is rejected by an invariant
     r = tlc.run('SampleCfg', 'SampleCfg.small.cfg' if quick else 'SampleCfg.full.cfg', workers=8, deadlock=True, timeout=1500)
     chk.add_tlc(r, 'SampleCfg model check')
-    r = tlc.run('SampleCfg', 'SampleCfg.live.cfg', workers=4, deadlock=True, timeout=900)
+    r = tlc.run('SampleCfg', 'SampleCfg.live.cfg', workers=1, deadlock=True, timeout=900, coverage=True)
     chk.add_tlc(r, 'SampleCfg liveness (tiny scope)')
+    cov = {a: r.coverage.get(a, 0) for a in ('ValidateRequest', 'TakeDefine', 'TakeFormat', 'TakeWriteFile', 'TakeInvalid', 'TakeLoop',
+                                             'EndLoop', 'Finish')}
+    if not all(cov.values()):
+        raise core.MachineryError(f'an action of SampleCfg is never taken in the tiny scope: {cov}')
+    chk.extra['states_generated_by_action_tiny_scope'] = cov
     mcfg = open(os.path.join(tlc.SPEC, 'SampleCfg.mutant.cfg')).read()
     rejected_by = {}
     t0 = time.time()
@@ -642,6 +683,8 @@ def main(chk, args):
             idx = sorted(rnd.sample(range(len(traces)), 10000))
             traces = [traces[i] for i in idx]; owners = [owners[i] for i in idx]
         validate(chk, cfg, traces, owners, tables, fnd)
+        if 'corrupted_traces_rejected' not in chk.extra:
+            self_test_traces(chk, traces)
         del traces, owners, cases
     chk.exhaustive = True       # every configuration of the enumerated scopes is executed; the simulated and random ones come on top
     # 3. beyond the enumerated vocabulary: seeded random configurations judged by the trace specification only
